@@ -146,7 +146,12 @@ def instances(tier, seed):
     out = []
     for name, kinds in KINDS.items():
         for kind in kinds:
-            out.append({'id': f'mono:{name}:{kind}', 'what': 'mono', 'spec': name, 'kind': kind})
+            ncfg = len(configs(name, kind, tier))
+            if name in ('ne16_latency', 'diana_latency'):
+                for ci in range(ncfg):       # the tile-based models fork a lot: one instance per enumerated configuration
+                    out.append({'id': f'mono:{name}:{kind}:cfg{ci}', 'what': 'mono', 'spec': name, 'kind': kind, 'cfg_idx': ci})
+            else:
+                out.append({'id': f'mono:{name}:{kind}', 'what': 'mono', 'spec': name, 'kind': kind})
     out.append({'id': 'helpers', 'what': 'helpers'})
     out.append({'id': 'dw_vs_generic', 'what': 'dw'})
     out.append({'id': 'reject', 'what': 'reject'})
@@ -269,7 +274,7 @@ def run_instance(p):
     tier = p.get('tier', 'quick')
     self_t = p.get('selftest', False)
     if p['what'] == 'mono':
-        _run_mono(res, p['spec'], p['kind'], tier, self_t)
+        _run_mono(res, p['spec'], p['kind'], tier, self_t, p.get('cfg_idx'))
     elif p['what'] == 'helpers':
         _run_helpers(res, self_t)
     elif p['what'] == 'dw':
@@ -304,17 +309,18 @@ def _cfg_json(cfg):
     return {k: (int(v) if isinstance(v, torch.Tensor) else (list(v) if isinstance(v, tuple) else v)) for k, v in cfg.items()}
 
 
-def _run_mono(res, spec_name, kind, tier, selftest):
+def _run_mono(res, spec_name, kind, tier, selftest, cfg_idx=None):
     """finite, >= 0, > 0 and monotone in every size dimension"""
     uses_out = kind != 'linear' and not spec_name.startswith('params')
     ne16 = spec_name == 'ne16_latency'
     # dimensions to test and whether each can be real-valued (relaxed counts)
     dim_list = ['cout'] + ([] if kind.endswith('_dw') else ['cin']) + (['out0', 'out1'] if uses_out else [])
     reals = [False, True]
-    for cfg in configs(spec_name, kind, tier):
+    cfgs = configs(spec_name, kind, tier)
+    if cfg_idx is not None:
+        cfgs = [cfgs[cfg_idx]]
+    for cfg in cfgs:
         for real in reals:
-            if real and spec_name.startswith('mpic'):
-                pass
             for dim in dim_list:
                 if real and dim.startswith('out'):
                     continue
@@ -383,7 +389,9 @@ def _mono_one(res, spec_name, kind, cfg, dim, real, ne16, selftest, tier):
                     a, b = _model_vals(m, v1), _model_vals(m, v2)
                     outcome.append(('sat', name, a, b))
             if ex.n_paths == 1:
-                r, m = ex.check()
+                r, m = ex.check(st.e_gt(c1, 0))
+                res.witnesses += 1
+                res.witnesses_ok += 1 if r == 'sat' else 0
                 if r == 'sat':
                     a = _model_vals(m, v1)
                     res.sample({'cost': spec_name, 'kind': kind, 'cfg': cj, 'dim': dim, 'dims': a, 'value': st.model_value(m, c1) if st.is_sym(c1) else c1})
